@@ -113,6 +113,15 @@ Fixpoint trace_eqb (a b : trace) : bool :=
   | _, _ => false
   end.
 Definition zeros := repeat 0%nat 64.
+(* C03 mode: the oracle goes on after a failed read, exactly as [exec] does *)
+Definition check_ref_full (k : cmd * list nat * trace) : bool :=
+  match k with
+  | (c, ds, obs) =>
+      match run 4000 c renv0 (ds ++ zeros) with
+      | Done _ tr _ _ => trace_eqb tr obs
+      | _ => false
+      end
+  end.
 Definition check_ref (k : cmd * list nat * trace) : bool :=
   match k with
   | (c, ds, obs) =>
@@ -134,7 +143,7 @@ Definition check_sound_instance (k : cmd * list nat * trace) : bool :=
   end.
 '''
 
-IMPORTS = ['Model.PyCore', 'Model.Reach', 'Model.Sem']
+IMPORTS = ['Model.PyCore', 'Model.Reach', 'Model.Sem', 'Proofs.ReachComplete']
 
 
 def impl_case_term(tree_body, obs):
@@ -160,14 +169,16 @@ class Oracle(object):
     """Runs the instrumented rendering under CPython with loop trips bounded at `max_trips` per
     loop activation; returns (log, effective decisions, arities, error)."""
 
-    def __init__(self, code, scope, max_trips=2):
+    def __init__(self, code, scope, max_trips=2, cont=False):
         self.code = compile(code, '<gen>', 'exec')
         self.scope = scope
         self.max_trips = max_trips
+        self.cont = cont
 
     def run(self, decisions):
         ns = {}
         exec(pygen.RUNTIME, ns)
+        ns['_cont'][0] = self.cont
         want = list(decisions)
         eff, ar = [], []
         max_trips = self.max_trips
@@ -257,6 +268,7 @@ Definition check_impl_noscope (k : cmd * list (N * list alt) * list N * list N) 
       set_eq_N (filter (fun r => e02 c aenv0 r) (map fst (reads c))) e02s
   end.
 Definition frag_ok (c : cmd) : bool := ok c.
+Definition frag_c03 (c : cmd) : bool := negb (has_ret c) && full_raise c && Nat.eqb (List.length (nodup N.eq_dec (map fst (reads c)))) (List.length (reads c)).
 '''
 
 # hand-written boundary programs, run first (corpus)
@@ -338,6 +350,11 @@ def api_sample(ctx, src, reads, binds, obs, k):
         try:
             locs = location(proj, src, (l, c + 1 if len(name) > 1 else c), fn)
         except SyntaxError:
+            continue
+        except Exception:
+            # a crash of location (e.g. F17: an alternative that resolves to a runtime object) is
+            # C08's business; it is counted, not judged here
+            ctx.histogram('location_crash_skipped', 1)
             continue
         flat = []
         for x in locs:
